@@ -446,6 +446,7 @@ bool PSBTInput::Merge(const PSBTInput& input)
     if (m_tap_key_sig.empty() && !input.m_tap_key_sig.empty()) m_tap_key_sig = input.m_tap_key_sig;
     if (m_tap_internal_key.IsNull() && !input.m_tap_internal_key.IsNull()) m_tap_internal_key = input.m_tap_internal_key;
     if (m_tap_merkle_root.IsNull() && !input.m_tap_merkle_root.IsNull()) m_tap_merkle_root = input.m_tap_merkle_root;
+    if (sighash_type == std::nullopt && input.sighash_type != std::nullopt) sighash_type = input.sighash_type;
     m_musig2_participants.insert(input.m_musig2_participants.begin(), input.m_musig2_participants.end());
     for (const auto& [agg_key_lh, pubnonces] : input.m_musig2_pubnonces) {
         m_musig2_pubnonces[agg_key_lh].insert(pubnonces.begin(), pubnonces.end());
